@@ -473,6 +473,11 @@ func genC9Leaf(t *rapid.T) *c9Node {
 	case 1, 2:
 		return &c9Node{Kind: "block", Text: rapid.SampledFrom(c9Tricky).Draw(t, "tricky")}
 	case 3:
+		if rapid.IntRange(0, 7).Draw(t, "bigblock") == 0 {
+			// a fragment around the sizes of I/O buffers (it must stay in its place among the smaller ones)
+			n := rapid.SampledFrom([]int{255, 256, 1023, 1024, 1025, 4095, 4096, 4097, 9000}).Draw(t, "bigsize")
+			return &c9Node{Kind: "block", Text: "<" + strings.Repeat("x", n-2) + ">"}
+		}
 		return &c9Node{Kind: "block", Text: genC9Text(t, "blk", 5)}
 	case 4:
 		s := genC9Text(t, "str", 4)
